@@ -12,10 +12,10 @@ is replayed into a real trimesh.Scene: after every step the projected registry (
 object identity, node set, parent / translation of every node, node -> geometry attribute) and every
 returned value are compared with what TLC computed; a closing sweep reads every listing.
 
-Named deviations: where the as-built machine departs from the stated behaviour the emitted step says
-so; if the real code reproduces the departure it is reported as a violation carrying the deviation id
-(so that it can be listed as a known finding), if it behaves as stated instead the deviation is
-counted as obsolete, anything else is an unexplained violation.
+Named deviation (DuplicateNodesNeedsBasePath): where the as-built machine departs from the stated
+behaviour the emitted step says so; if the real code reproduces the departure it is reported as a
+violation carrying the deviation id (so that it can be listed as a known finding), if it behaves as
+stated instead the deviation is counted as obsolete, anything else is an unexplained violation.
 """
 import json
 import os
@@ -32,10 +32,9 @@ from harness.common import (MachineryError, Verdict, import_trimesh, pmap, seed,
 
 PROP = "X03"
 MODULE = "SceneRegistry"
-DEV_NODE = "ExplicitNodeNameOverwrites"
 DEV_DUP = "DuplicateNodesNeedsBasePath"
 
-FLAGS = ["AsBuiltNodeOverwrite", "AsBuiltDupNeedsPath", "MutNoUniqueGeom", "MutNodeNotUnique",
+FLAGS = ["AsBuiltDupNeedsPath", "MutNoUniqueGeom", "MutNodeNotUnique",
          "MutReturnGeomName", "MutDeleteKeepsRefs", "MutForgetDirty", "MutSceneKeyNoGraph",
          "MutSubsceneEdgeTo", "MutSceneNoRemap"]
 INVS = ["RefIntegrity", "InverseImage", "SubsceneCorrect"]
@@ -339,17 +338,7 @@ class Replay:
             got = self.project()
             k, d = self.diff(got, exp)
             if gret == eret and not k:
-                if e.get("dev"):
-                    out.append(("dev", "NoOverwrite(explicit node_name)", DEV_NODE,
-                                {"returned": gret, "stated": e["alt"]["ret"]}))
                 return None, None, exp
-            if e.get("dev"):
-                alt = canon_exp(e["alt"]["st"])
-                aret = e["alt"]["ret"] if op == "add" else as_list(e["alt"]["ret"])
-                k2, _ = self.diff(got, alt)
-                if gret == aret and not k2:
-                    out.append(("obsolete", DEV_NODE))
-                    return "stop", None, alt
             if gret != eret:
                 return "AddReturns", {"returned": gret, "exp": eret}, exp
             return ("NoOverwriteScene(" if op == "addscene" else "AddRegistry(") + k + ")", d, exp
@@ -417,7 +406,7 @@ def build_other(trimesh, k):
 
 
 def short(h):
-    return [{k: v for k, v in e.items() if k not in ("st", "alt", "sub", "ngl", "gnl", "dup")} for e in h]
+    return [{k: v for k, v in e.items() if k not in ("st", "sub", "ngl", "gnl", "dup")} for e in h]
 
 
 def replay_one(trimesh, beh, variant):
@@ -434,8 +423,6 @@ def replay_one(trimesh, beh, variant):
         except BaseException as ex:  # noqa
             c, d = "Exception(" + e["op"] + ")", {"exc": type(ex).__name__ + ": " + str(ex)[:160]}
         n += 1
-        if c == "stop":
-            return out, n
         if c is not None:
             d = dict(d or {})
             d["step"] = i
@@ -480,6 +467,8 @@ def _replay_chunk(chunk):
         steps += n
         for e in beh["h"]:
             ops[e["op"]] = ops.get(e["op"], 0) + 1
+            if e.get("reaim"):
+                ops["(add re-aiming an existing node)"] = ops.get("(add re-aiming an existing node)", 0) + 1
         for kind, *rest in out:
             if kind == "obsolete":
                 res.append(("obsolete", rest[0], None, None))
@@ -494,8 +483,6 @@ def _replay_chunk(chunk):
 # ------------------------------------------------------------------ main
 SELFTESTS = [
     # flag, clause TLC must report, config overrides
-    ("AsBuiltNodeOverwrite", "NoOverwrite", {}),
-    ("AsBuiltNodeOverwrite", "AddReturns", {"lists": "Lists1", "ops": "OpsMut"}),
     ("AsBuiltDupNeedsPath", "DupCorrect", {}),
     ("MutNoUniqueGeom", "NoOverwrite", {}),
     ("MutNodeNotUnique", "NoOverwrite", {}),
@@ -553,46 +540,42 @@ def main(argv):
         if kk:
             V.violation("RecipeScene(" + kk + ")", {"recipe": x["ops"], "diff": dd})
 
-    # 1. model checking: the stated behaviour (no deviation, no mutant) satisfies every clause
-    d = tlc.prepare("x03/mc")
+    # All TLC work is independent of the replay: run it concurrently (the emissions are single-worker).
+    keep = ["RefIntegrity", "InverseImage", "SubsceneCorrect", "AddReturns", "NoOverwrite", "NoOverwriteScene", "DeleteClean",
+            "ListingFresh", "BoundsAgree"]
+    asb = ("AsBuiltDupNeedsPath",)
+    wide = dict(objs="Objs5", gn="NamesAN", nn="NamesAN", lists="Lists2", rec="Rec1234", ops="OpsAll", pm="all")
+    mcs, emits = [], []
+    # 1. model checking: the stated behaviour (no deviation, no mutant) satisfies every clause ...
     if quick:
-        r = tlc.must(tlc.run(d, MODULE, cfg(depth=3), timeout=1500), "mc")
-        note("mc stated behaviour Objs2 depth=3", r)
+        mcs.append(("mc stated behaviour Objs2 depth=3", cfg(depth=3), 4))
     else:
-        r = tlc.must(tlc.run(d, MODULE, cfg(depth=4), timeout=3000), "mc")
-        note("mc stated behaviour Objs2 depth=4", r)
-        r = tlc.must(tlc.run(d, MODULE, cfg(objs="Objs5", gn="NamesAN", nn="NamesAN", lists="Lists2", rec="Rec1234",
-                                            ops="OpsAll", pm="all", depth=3), timeout=3000), "mc-wide")
-        note("mc stated behaviour Objs5 all ops depth=3", r)
-    # the as-built machine keeps every clause the deviations do not touch
-    keep = ["RefIntegrity", "InverseImage", "SubsceneCorrect", "NoOverwriteScene", "DeleteClean", "ListingFresh", "BoundsAgree"]
-    r = tlc.must(tlc.run(d, MODULE, cfg(depth=3, check=keep, flags=("AsBuiltNodeOverwrite", "AsBuiltDupNeedsPath")), timeout=1500), "mc-asbuilt")
-    note("mc as-built machine depth=3", r)
-    # spec self-tests: every deviation / mutant makes TLC report the clause it breaks
-    with ThreadPoolExecutor(max_workers=4) as ex:
-        results = list(ex.map(selftest, list(enumerate(SELFTESTS))))
-    st = {}
-    for flag, clause, rr in results:
-        st[f"{flag}->{clause}"] = rr.violated
-        if rr.violated != clause:
-            raise MachineryError(f"spec self-test {flag}: expected {clause} to be reported, got {rr.violated} {rr.error}\n" + rr.stdout[-1500:])
-        note(f"selftest {flag}->{clause}", rr)
-    cov["spec_selftests"] = st
-
+        mcs.append(("mc stated behaviour Objs2 depth=4", cfg(depth=4), 12))
+        mcs.append(("mc stated behaviour Objs5 all ops depth=3", cfg(depth=3, **wide), 8))
+    # ... and the as-built machine keeps every clause the deviation does not touch
+    mcs.append(("mc as-built machine depth=3", cfg(depth=3, check=keep, flags=asb), 4))
     # 2. behaviours of the as-built machine
-    asb = ("AsBuiltNodeOverwrite", "AsBuiltDupNeedsPath")
-    jobs = []
     if quick:
-        jobs.append(("all histories depth=3", dict(depth=3), None))
-        jobs.append(("simulate wide", dict(objs="Objs5", gn="NamesAN", nn="NamesAN", lists="Lists2", rec="Rec1234", ops="OpsAll", pm="all", depth=8), 25))
+        emits.append(("all histories depth=3", dict(depth=3), None))
+        emits.append(("simulate wide", dict(depth=8, **wide), 10))
     else:
-        jobs.append(("all histories depth=3", dict(depth=3), None))
-        jobs.append(("all histories depth=3 wide objects", dict(objs="Objs5", gn="NamesAN", nn="NamesAN", lists="Lists0", dicts="Dicts0", rec="Rec0", ops="OpsCore", depth=3), None))
-        jobs.append(("all histories depth=4 core ops", dict(objs="Objs1", gn="NamesA", nn="NamesA", lists="Lists0", dicts="Dicts0", rec="Rec13", ops="OpsMut", depth=4), None))
+        emits.append(("all histories depth=3", dict(depth=3), None))
+        emits.append(("all histories depth=3 all objects", dict(objs="Objs5", gn="NamesAN", nn="NamesAN", lists="Lists0", dicts="Dicts0",
+                                                               rec="Rec0", ops="OpsCore", depth=3), None))
+        emits.append(("all histories depth=4 one object", dict(objs="Objs1", gn="NamesA", nn="NamesA", lists="Lists0", dicts="Dicts0",
+                                                              rec="Rec13", ops="OpsMut", depth=4), None))
         for j in range(6):
-            jobs.append((f"simulate wide #{j}", dict(objs="Objs5", gn="NamesAN", nn="NamesAN", lists="Lists2", rec="Rec1234", ops="OpsAll", pm="all", depth=7 + j), 250))
+            emits.append((f"simulate wide #{j}", dict(depth=6 + j, **wide), 120))
 
-    def emit(job):
+    def run_mc(job):
+        k, (name, c, workers) = job
+        return "mc", name, tlc.must(tlc.run(tlc.prepare(f"x03/mc{k}"), MODULE, c, workers=workers, timeout=3000), name)
+
+    def run_self(job):
+        flag, clause, rr = selftest(job)
+        return "self", (flag, clause), rr
+
+    def run_emit(job):
         k, (name, kw, nsim) = job
         dd = tlc.prepare(f"x03/emit{k}")
         c = cfg(emitting=True, view=False, check=["EmitLeaf"], flags=asb, **kw)
@@ -603,18 +586,33 @@ def main(argv):
                          seed=seed() * 101 + 7 + k, timeout=3000)
             if rr.violated or (rr.error and rr.error != "timeout"):
                 raise MachineryError(f"{name} failed: {rr.violated} {rr.error}\n" + rr.stdout[-800:])
-        return name, rr
+        return "emit", name, rr
 
-    behs, counts = [], {}
-    with ThreadPoolExecutor(max_workers=4) as ex:
-        for name, rr in ex.map(emit, list(enumerate(jobs))):
-            note("emit " + name, rr)
-            got = [b for b in rr.printed if isinstance(b, dict) and "h" in b]
-            counts[name] = len(got)
-            if len(got) < 100:
-                raise MachineryError(f"emission '{name}' too small: {len(got)}")
-            behs += got
-            rr.printed = rr.stdout = None
+    behs, counts, st = [], {}, {}
+    with ThreadPoolExecutor(max_workers=6) as ex:
+        futs = [ex.submit(run_emit, j) for j in enumerate(emits)]       # longest first
+        futs += [ex.submit(run_mc, j) for j in enumerate(mcs)]
+        futs += [ex.submit(run_self, j) for j in enumerate(SELFTESTS)]
+        for f in futs:
+            kind, name, rr = f.result()
+            if kind == "mc":
+                note(name, rr)
+            elif kind == "self":
+                # spec self-tests: every deviation / mutant makes TLC report the clause it breaks
+                flag, clause = name
+                st[f"{flag}->{clause}"] = rr.violated
+                if rr.violated != clause:
+                    raise MachineryError(f"spec self-test {flag}: expected {clause} to be reported, got {rr.violated} {rr.error}\n" + rr.stdout[-1500:])
+                note(f"selftest {flag}->{clause}", rr)
+            else:
+                note("emit " + name, rr)
+                got = [b for b in rr.printed if isinstance(b, dict) and "h" in b]
+                counts[name] = len(got)
+                if len(got) < 100:
+                    raise MachineryError(f"emission '{name}' too small: {len(got)}")
+                behs += got
+                rr.printed = rr.stdout = None
+    cov["spec_selftests"] = st
     # simulated leaves repeat; replay each distinct behaviour once
     seen, uniq = set(), []
     for b in behs:
